@@ -309,7 +309,8 @@ def run_cfg(chk, facts, cfg):
     qrows = [('q=NaN', const('nan')), ('q<=0', AV(None, Fraction(0))), ('q>=1', AV(Fraction(1), None))]
     for qlabel, qfn, qnames, qidx in (('quantile::Stats::ci', facts.inherent('quantile::Stats', 'ci'), ['self', 'confidence', 'q'], 2),
                                       ('quantile::ci_indices', facts.free_fn('quantile::ci_indices'), ['confidence', 'n', 'q'], 2),
-                                      ('quantile::ci_sorted_unchecked', facts.free_fn('quantile::ci_sorted_unchecked'), ['confidence', 'sorted', 'q'], 2)):
+                                      ('quantile::ci_sorted_unchecked', facts.free_fn('quantile::ci_sorted_unchecked'), ['confidence', 'sorted', 'q'], 2),
+                                      ('quantile::Stats::index', facts.inherent('quantile::Stats', 'index'), ['self', 'q'], 1)):
         if not chk.anchor(qlabel + ' (quantile domain)' + sfx, qfn):
             continue
         where = facts.loc(qfn['id'])
@@ -320,8 +321,14 @@ def run_cfg(chk, facts, cfg):
         except Unsupported as e:
             chk.ob('%s:errors:%s%s' % (PID, qlabel, sfx), 'E6 error-table', qlabel, None, 'undecided: %s' % e, where)
             continue
-        for rname, av in qrows:
+        rows_ = qrows
+        if qlabel.endswith('::index'):
+            # index accepts the closed unit interval, and reports an empty population first
+            rows_ = [('q=NaN', const('nan')), ('q<0', AV(None, Fraction(-1, 10 ** 9))), ('q>1', AV(Fraction(10 ** 9 + 1, 10 ** 9), None))]
+        for rname, av in rows_:
             env0 = base_env(sx, facts)
+            if qlabel.endswith('::index'):
+                env0.ref[T.sym('self.population')] = AV(Fraction(1), Fraction(U64MAX))
             for name, ty in sx.symty.items():
                 if ty is not None and ty.get('k') == 'f64' and name.startswith('confidence.'):
                     env0.ref[T.sym(name)] = LEVEL_RANGE
